@@ -623,6 +623,47 @@ func init() {
 					d := unrank(i, len(pl), nk, nk)
 					c.Case(0, true, runLiteralPair(c, ref.ScalarKinds[d[1]], ref.ScalarKinds[d[2]], pl[d[0]]))
 				}})
+			// a refused parse directly followed by a good one: no text, number or state of the refused input
+			// may leak into the next result (conversion state kept across Parse calls)
+			refused := []string{
+				"S1F1 <A \"LEFTOVER\" T> .", "S1F1 <A \"LEFT\" 65 $> .", "S1F1 <A \"abc\" \"unclosed> .", "S1F1 <A \"x\" y> .", "S1F1 <A 200> .", "S1F1 <A \"é\"> .",
+				"S1F1 <U1 256 7> .", "S1F1 <F4 1e39 0.5> .", "S1F1 <B 1 2 300> .", "S1F1 <L <U1 1> <A \"in list\" 1.5>> .", "S1F1 <BOOLEAN T 1> .", "S1F1 <I8 9223372036854775808> .",
+				"S1F1 <L <A x> <A x>> .", "S1F1 <L[2] <A \"one\">> .", "S1F1 <A \"tail\"", "S1F1 <F8 0.1 x x> .",
+			}
+			good := []struct {
+				k ref.Kind
+				l literal
+			}{}
+			for _, l := range lits {
+				switch l.Text {
+				case `"a"`, `"a b"`, "65", "0x41", "0.1", "1", "255", "-1", "T", "x", "1.5", "1e39", "16777217":
+					for _, k := range []ref.Kind{ref.A, ref.U1, ref.F4, ref.F8, ref.B, ref.BOOLEAN, ref.I8} {
+						good = append(good, struct {
+							k ref.Kind
+							l literal
+						}{k, l})
+					}
+				}
+			}
+			sp = append(sp, h.Space{Name: "refused-parse-then-good-parse", Count: uint64(len(refused) * len(good)),
+				Describe: func(i uint64) interface{} {
+					return fmt.Sprintf("after sml.Parse(%q): literal %q in %s", refused[i/uint64(len(good))], good[i%uint64(len(good))].l.Text, good[i%uint64(len(good))].k)
+				},
+				Run: func(c *h.Ctx, i uint64) {
+					bad, g := refused[i/uint64(len(good))], good[i%uint64(len(good))]
+					_, errs, _, pan := smlRun(bad)
+					if pan != "" {
+						c.Fail("panic", strconv.Quote(bad), pan)
+					} else if len(errs) == 0 {
+						c.Note("refused-text-was-accepted", 1)
+					}
+					out := runLiteral(c, g.k, g.l, 3, false)
+					out2 := runLiteral(c, g.k, g.l, 1, false)
+					if out == "bad" || out2 == "bad" {
+						c.Fail("result-depends-on-a-previous-refused-parse", fmt.Sprintf("sml.Parse(%s) and then literal %q in %s", strconv.Quote(bad), g.l.Text, g.k), "see the accompanying violation of this case")
+					}
+					c.Case(0, true, "after-refusal:"+out)
+				}})
 			// every 1- and 2-character printable ASCII string (minus the quote), verbatim
 			const lo, hi = 32, 126
 			n1 := hi - lo + 1
